@@ -107,7 +107,8 @@ pub fn weights(profile: &str) -> W {
             w.margins = 6;
             w.rep = 8;
             w.abs = 12;
-            w.resize_pct = 6;
+            w.resize_pct = 10;
+            w.alt = 8;
             w.single_pct = 90;
         }
         "C05" => {
@@ -125,6 +126,7 @@ pub fn weights(profile: &str) -> W {
         }
         "C06" => {
             w.region_pct = 50;
+            w.resize_pct = 14;
             w.scroll = 40;
             w.margins = 14;
             w.abs = 14;
@@ -148,7 +150,8 @@ pub fn weights(profile: &str) -> W {
             w.edit = 8;
             w.scroll = 5;
             w.single_pct = 85;
-            w.resize_pct = 2;
+            w.resize_pct = 8;
+            w.alt = 8;
         }
         "C10" => {
             w.resize_pct = 35;
